@@ -119,7 +119,7 @@ CLAIMED = {
               "inverse. Square-root tails (GF255<19>, GF448, GFsecp256k1; three more thorough): for every candidate root the exponentiation may "
               "produce, normalisation, even-root selection, the squaring check, the status word and the returned value are as documented."),
         design_ref="DESIGN.md 3 C12, 8",
-        note="Partial: step-level for division; exponent-chain correctness of the square roots (completeness for squares), the Legendre value, ModInt256 scalar sqrt and binary fields are not posed.",
+        note="Partial: step-level for division (plus a native closed-case corpus for x/y*y = x and the Legendre symbol); exponent-chain correctness of the square roots (completeness for squares), the Legendre value, ModInt256 scalar sqrt and binary fields are not posed.",
     ),
     "C08": dict(
         engine="llsym",
